@@ -8,7 +8,7 @@ use crate::chunker::rabin::verif_harness::FragReader;
 //@ prop: C06
 //@ tier: quick
 //@ timeout: 900
-//@ mem: 12
+//@ mem: 10
 //@ fsarray: 256
 //@ kernel: chunker::fixed_size::ChunkIter::{new,next}
 //@ bound: chunk size 3; stream length symbolic 0..=6, all bytes symbolic; read fragmentation: up to 2 short reads of symbolic length at symbolic points, other reads full; size_hint usize::MAX (the archiver passes the file size; capacity is then the chunk size); four calls of next() (at most 3 chunks + end); unwind 9
